@@ -20,26 +20,46 @@ HASINTLIT = z3.Function("HASINTLIT", z3.IntSort(), z3.BoolSort())
 INTLIT = z3.Function("INTLIT", z3.IntSort(), z3.IntSort())
 
 
+from pyvc.values import V
+from spec import native as N
+
+
 def _t(x):
     from pyvc.dsl import current
     return current().ex.term_of_refu(x)
 
 
 def is_field_read(key, sv):
+    if not isinstance(sv, V):
+        return N.native_is_field_read(key, sv)
     return VBool(ISFIELDREAD(_s(key), _t(sv)))
 
 
 def keydef(v, key):
+    if isinstance(v, N.NativeVisit):
+        return N.native_keydef(v, key)
     return VBool(KEYDEF(v.term, _s(key)))
 
 
 def keyfld(v, key):
+    if isinstance(v, N.NativeVisit):
+        return N.native_keyfld(v, key)
     return VInt(KEYFLD(v.term, _s(key)))
 
 
 def has_int_lit(ins):
+    if not isinstance(ins, V):
+        return N.native_int_lit(ins) is not None
+    # definitional axiom: only literal-pushing opcodes have a readable literal
+    from pyvc.dsl import current
+    from spec.avm_axioms import cls_is
+    ctx = current()
+    ctx.st.pc.append(z3.Implies(HASINTLIT(ins.term), z3.Or(cls_is(ctx.ex, ins.term, "Int"), cls_is(ctx.ex, ins.term, "PushInt"),
+                                                           cls_is(ctx.ex, ins.term, "IntcInstruction"))))
     return VBool(HASINTLIT(ins.term))
 
 
 def int_lit(ins):
+    if not isinstance(ins, V):
+        return N.native_int_lit(ins)
     return VInt(INTLIT(ins.term))
